@@ -346,8 +346,98 @@ namespace
         ctx.rep.hit("cache-states", seen.size());
     }
 
+    // Two live grids of the same static type queried in lock-step: neither may see the
+    // other's state (per-type or per-thread storage shared between grid objects).
+    GridSpec companion_of(const GridSpec& gs)
+    {
+        GridSpec c = gs;
+        bool looped = false;
+        for (int i = 0; i < (gs.kind == PROFILE ? 2 : 4); ++i)
+            if (gs.b[i] == LOOPED)
+                looped = true;
+        for (int i = 0; i < 4; ++i)
+            c.b[i] = looped ? FIXED_VALUE : LOOPED;
+        if (gs.kind == PROFILE)
+            c.nc = gs.nc + 1;
+        else if (gs.nr != gs.nc)
+            std::swap(c.nr, c.nc);
+        else
+            c.nc = gs.nc + 1;
+        c.sr = gs.sc * 1.5;
+        c.sc = gs.sr * 0.5;
+        return c;
+    }
+
+    std::string c07_pair_world(const GridSpec& a, const GridSpec& b, int acc, std::size_t node, int order)
+    {
+        std::ostringstream o;
+        o << "g=" << a.str() << ";g2=" << b.str() << ";pair=" << acc << ":" << node << ":" << order;
+        return o.str();
+    }
+
+    template <class G>
+    void c07_pair_one(Ctx& ctx, const GridSpec& gs, const GridSpec& cs, int acc, std::size_t node, int order)
+    {
+        RefGeom geo = ref_geometry(gs), cgeo = ref_geometry(cs);
+        std::unique_ptr<G> ga, gb;
+        with_grid(gs, [&](auto& grid) { if constexpr (std::is_same_v<std::decay_t<decltype(grid)>, G>) ga = std::make_unique<G>(grid); });
+        with_grid(cs, [&](auto& grid) { if constexpr (std::is_same_v<std::decay_t<decltype(grid)>, G>) gb = std::make_unique<G>(grid); });
+        if (!ga || !gb)
+            return;
+        Findings f, dummy;
+        if (order == 0)
+        {
+            // companion first (same flat index), then the judged query on the main grid
+            if (node < static_cast<std::size_t>(cgeo.n))
+                apply_accessor(*gb, cs, cgeo, A_NEIGHBORS, node, dummy);
+            apply_accessor(*ga, gs, geo, acc, node, f);
+        }
+        else
+        {
+            apply_accessor(*ga, gs, geo, A_INDICES, node, dummy);
+            if (node < static_cast<std::size_t>(cgeo.n))
+                apply_accessor(*gb, cs, cgeo, acc, node, f);
+        }
+        ctx.rep.ops += 2;
+        ++ctx.rep.evaluations;
+        for (auto& x : f)
+            ctx.rep.violation("C07/two-grids/" + x.sig, ctx.order(), c07_pair_world(gs, cs, acc, node, order), x.detail);
+    }
+
+    template <class G>
+    void c07_pairs(Ctx& ctx, const GridSpec& gs)
+    {
+        GridSpec cs = companion_of(gs);
+        if (!cs.borders_admissible())
+            return;
+        int nacc = is_raster_v<G> ? A_END : A_RC_INDICES;
+        std::size_t n = static_cast<std::size_t>(gs.size());
+        for (int order = 0; order < 2; ++order)
+            for (int a = 0; a < nacc; ++a)
+                for (std::size_t node = 0; node < n; ++node)
+                    c07_pair_one<G>(ctx, gs, cs, a, node, order);
+        ctx.rep.hit("two-grid-lock-step-configurations");
+    }
+
     void c07_replay(Ctx& ctx, const std::string& world)
     {
+        {
+            auto kv0 = parse_kv(world);
+            if (kv0.count("pair"))
+            {
+                GridSpec gs = GridSpec::parse(kv0["g"]), cs = GridSpec::parse(kv0["g2"]);
+                auto p = split(kv0["pair"], ':');
+                with_grid(gs,
+                          [&](auto& grid)
+                          {
+                              using G = std::decay_t<decltype(grid)>;
+                              ++ctx.rep.worlds;
+                              c07_pair_one<G>(ctx, gs, cs, std::atoi(p[0].c_str()), static_cast<std::size_t>(std::atol(p[1].c_str())),
+                                              std::atoi(p[2].c_str()));
+                          });
+                return;
+            }
+        }
         auto kv = parse_kv(world);
         GridSpec gs = GridSpec::parse(kv["g"]);
         RefGeom geo = ref_geometry(gs);
@@ -433,6 +523,7 @@ namespace
                       {
                           using G = std::decay_t<decltype(grid)>;
                           c07_config<G>(ctx, cfg.first, cfg.second);
+                          c07_pairs<G>(ctx, cfg.first);
                       });
             alarm(0);
         }
